@@ -1,7 +1,7 @@
 (* Properties/C16.v -- Macro 05/06 compaction and GS1 start are exact and lossless (the parts that are theorems). *)
 From Coq Require Import Arith NArith List Bool.
 From DM Require Import Generated.Symbols Generated.ModeTables Model.Outcome Model.SymbolList Model.Planner Model.PlannerRun Model.Enc Model.Dec
-  Model.Api Spec.Stream16022 Proofs.EncLocal Proofs.EncTop Proofs.DecMacro Proofs.DecScript Proofs.EncAscii Proofs.MacroAscii Proofs.EncAB Proofs.EncAX.
+  Model.Api Spec.Stream16022 Proofs.EncLocal Proofs.EncTop Proofs.DecMacro Proofs.DecScript Proofs.EncAscii Proofs.MacroAscii Proofs.EncAB Proofs.EncAX Proofs.EncAC.
 Import ListNotations.
 Local Open Scope N_scope.
 
@@ -125,6 +125,27 @@ Theorem C16_fnc1_roundtrip_ax : forall sorter data symbols modes use_macros cw s
   decode_data cw = Ok data.
 Proof. exact fnc1_ax_roundtrip. Qed.
 Print Assumptions C16_fnc1_roundtrip_ax.
+
+(* the same for every mode set within {ASCII, C40} (text = false) and within {ASCII, Text} (text = true) *)
+Theorem C16_macro_roundtrip_ac : forall (text : bool) sorter data symbols modes body m head cw s,
+  (forall k l l', sorter symbols k l = Ok l' -> incl l' l) ->
+  (forall mo, enabled modes mo = true -> mo = Ascii \/ mo = (if text then Text else C40)) -> bytes_ok body = true ->
+  (m = MACRO05 /\ head = MACRO05_HEAD) \/ (m = MACRO06 /\ head = MACRO06_HEAD) ->
+  data = head ++ body ++ MACRO_TRAIL ->
+  encode_data_internal (optimize_fn sorter) data symbols None modes true false = Ok (cw, s) ->
+  (exists script npad, script_ok script npad = true /\ cw = stream_with m script npad /\ meaning script = body /\ Forall (ac_seg text) script) /\
+  decode_data cw = Ok data.
+Proof. exact macro_ac_roundtrip. Qed.
+Print Assumptions C16_macro_roundtrip_ac.
+
+Theorem C16_fnc1_roundtrip_ac : forall (text : bool) sorter data symbols modes use_macros cw s,
+  (forall k l l', sorter symbols k l = Ok l' -> incl l' l) ->
+  (forall mo, enabled modes mo = true -> mo = Ascii \/ mo = (if text then Text else C40)) -> bytes_ok data = true ->
+  encode_data_internal (optimize_fn sorter) data symbols None modes use_macros true = Ok (cw, s) ->
+  (exists script npad, script_ok script npad = true /\ cw = stream_with 232 script npad /\ meaning script = data /\ Forall (ac_seg text) script) /\
+  decode_data cw = Ok data.
+Proof. exact fnc1_ac_roundtrip. Qed.
+Print Assumptions C16_fnc1_roundtrip_ac.
 
 (* NOT a theorem here: that the body decodes to itself under the plans that use C40, Text, X12 or EDIFACT (the round trip through
    those mode encoders and the decoder) -- decided per case by the correspondence + reference decoder + certificate, see DESIGN.md. *)
